@@ -72,32 +72,41 @@ class C15(DiffProperty):
                "the element-wise copy loop with undo of ORefCopy is the harness' own (the traits contract), not library code"]
     level_text = ("proof: Coq theorems (coq/C15/Properties.v) state for the transcribed mechanism, for EVERY history of the 24 handle "
                   "operations from the empty state (induction over the operation list, no bound on length, objects or counter "
-                  "values): raise refuses 0 and the maximum instead of wrapping, lower returns the remaining count and the "
-                  "modular counter equals the unbounded one (C15_raise_refuses_zero_and_max, C15_lower_returns_remaining, "
-                  "C15_counter_refines_spec); every live counted object's counter equals the number of handles on it in slots, "
-                  "locals and owning objects plus those the environment forced, and stays in 1..2^64-1 (C15_count_is_handles); "
-                  "unshareable kinds have exactly one handle (C15_unique_has_one_handle); an object is destroyed iff no handle on "
-                  "it is left and no handle refers to a destroyed object (C15_destroy_exactly_at_zero), no history touches a "
-                  "destroyed object (C15_history_never_faults), an unreachable object lives only while its counter is forced "
-                  "(C15_unreachable_only_if_forced); the counter-free specification's derived observation (alive, count, leak "
-                  "verdict) of every reached state equals the model's (C15_spec_observation_agrees, C15_spec_leak_agrees); the "
-                  "invariant is inductive from any state (C15_step_preserves_invariant); "
-                  "assignment through conversion releases the old referent once and retains the new one once, or fails / is a "
-                  "self-assignment without effect (C15_assign_releases_old_once_retains_new_once, C15_assign_refused_unchanged, "
-                  "C15_assign_same_unchanged); the model is tied to the code on every run by differential execution under "
+                  "values) and all 12 object kinds: REFINEMENT of the counter-free handle-multiset specification (RefcountSpec.v: "
+                  "state = created objects + slots, step = handle moves, alive/count/shareable DERIVED from the handles) by the "
+                  "mechanism model (counter fields, destruction flags, vtable calls): every operation from every pair of related "
+                  "states returns the specification's output and ends in a state related to the specification's next state "
+                  "(C15_step_refines_spec; with the abstraction function: abs(model step) = clean(spec step(abs state)), "
+                  "C15_step_commutes_with_abstraction); related states have the same observation and leak verdict "
+                  "(C15_refinement_preserves_observation); for every history the model's observation sequence IS the "
+                  "specification's (C15_history_refines_spec, C15_spec_observation_agrees, C15_spec_leak_agrees). Corollaries for "
+                  "all histories: an object is destroyed exactly when the last handle (as counted by the specification's own "
+                  "run) is dropped, never earlier, never later, and a live counter equals that handle count "
+                  "(C15_destroyed_iff_last_handle_dropped, C15_destroy_exactly_at_zero, C15_count_is_handles, "
+                  "C15_unreachable_only_if_forced, C15_unique_has_one_handle, C15_history_never_faults); a saturated counter or "
+                  "a kind without counter refuses the share with the failure result and changes nothing observable "
+                  "(C15_saturated_share_refused, C15_raise_refuses_zero_and_max, C15_lower_returns_remaining, "
+                  "C15_counter_refines_spec); replacing a held reference by conversion, array clone or reference<T>::operator= "
+                  "releases the old referent once and retains the new one once, any kind, target empty/held/same "
+                  "(C15_assign_any_form_releases_old_once_retains_new_once, C15_assign_releases_old_once_retains_new_once, "
+                  "C15_assign_refused_unchanged, C15_assign_same_unchanged); the invariant is inductive from any state "
+                  "(C15_step_preserves_invariant); the model is tied to the code on every run by differential execution under "
                   "ASan/UBSan/LSan with counter fields, destruction time and vtable call order compared")
     level_note = ("trusted: Coq kernel; hand transcription of the C/C++ sources (validated by the correspondence run, not verified); "
-                  "extraction and OCaml driver; harness. PARTIAL: the executable handle-multiset specification (RefcountSpec.v: no "
-                  "counter, alive/count derived from the handles), which is the oracle of the check, is tied to the model "
-                  "state-wise by theorems (its observation of the handles of every reached model state is the model's observation) "
-                  "but its own step function (which slot holds what after each operation, which share is refused) is tied to the "
-                  "model only by the correspondence run: there is no Coq proof that srun tracks abs(mrun) step by step. "
-                  "Kinds whose destruction is seen only through ASan/LSan (stream input, rawdata, reply context, geninfo, meta "
+                  "extraction and OCaml driver; harness. The executable handle-multiset specification that is the oracle of the "
+                  "check is now tied to the model by a proved step and history refinement (no longer only state-wise). Exact "
+                  "wording of the commuting square: abs(step s o) = sclean(sstep(abs s) o) with equal outputs, where sclean erases "
+                  "the records of objects the specification no longer counts as existing (it never erases a record, the model "
+                  "clears the owned handle of a destroyed owner; Example C15_ex_owner_history shows a state where they differ); "
+                  "the uncleaned specification state is related to the model state as well. The guard (harness preconditions) is "
+                  "shared by model and specification. Still outside the proofs: "
+                  "kinds whose destruction is seen only through ASan/LSan (stream input, rawdata, reply context, geninfo, meta "
                   "buffer, config root) are correspondence-level for the destruction TIME; buffer contents / typed elements "
-                  "(C04/C05) and reply transport (C12) are outside. The theorems hold for the tree with the five fix: commits of "
-                  "branch verif-C15 (data_converter.c, input_traits.c, array_clone.c, buffer_alloc.c detach failure path). "
-                  "All 14 theorems closed under the global context.")
-    technique = "Coq invariant proof over all operation histories (counter = handle multiset) + differential correspondence check"
+                  "(C04/C05) and reply transport (C12) are outside. The theorems hold for the tree with the fix: commits "
+                  "(data_converter.c, input_traits.c, array_clone.c, buffer_alloc.c detach failure path). "
+                  "All theorems closed under the global context.")
+    technique = ("Coq forward-simulation (refinement) proof mechanism model -> handle-multiset specification for every operation and "
+                 "every history, invariant counter = handle multiset + differential correspondence check")
     assumptions = ["malloc succeeds", "single thread", "uintptr_t has 64 bits"]
 
     # ---- two harnesses: C (families c, r) and C++ (families x, y)
